@@ -766,8 +766,25 @@ func execC13(c *hx.Case) (*hx.Result, error) {
 			return nil, fmt.Errorf("unknown op %q in a schedule", o.K)
 		}
 	}
-	// what is still in flight at the end
-	quiesce()
+	// the end of the case: first receive every notification still to come (recorded as ordinary `t` steps; a
+	// delivery can let further background work start, e.g. a Remove that the implementation issues only after
+	// the announcement), then look at what is parked. The barrier before each look makes "nothing more arrives"
+	// a fact, not a guess.
+	for {
+		quiesce()
+		var v []uint64
+		got := false
+		select {
+		case v = <-w.notes:
+			got = true
+		default:
+		}
+		if !got {
+			break
+		}
+		terms = append(terms, "YT "+optNlist(true, v))
+		observed = append(observed, map[string]any{"note": v, "some": true, "final_drain": true})
+	}
 	var endW []uint64
 	for _, cl := range w.g.parked(true) {
 		endW = append(endW, cl.ids[0])
@@ -777,11 +794,6 @@ func execC13(c *hx.Case) (*hx.Result, error) {
 		endR = append(endR, cl.ids)
 	}
 	var endT [][]uint64
-	select {
-	case v := <-w.notes:
-		endT = append(endT, v)
-	default:
-	}
 	w.abandon()
 	for i := range terms {
 		terms[i] = "(" + terms[i] + ")"
